@@ -3,9 +3,9 @@
 # usage: seed_check.sh <seed-dir> <ID> [<ID> ...]
 d=$(realpath "$1"); shift
 cd /verif
-git -C /repo apply $d/patch.diff || { echo "patch does not apply"; exit 2; }
+git -C /repo apply $d/patch.diff 2>/dev/null || git -C /repo apply --3way $d/patch.diff >/dev/null 2>&1 || { echo "patch does not apply"; git -C /repo reset -q --hard HEAD; exit 2; }
 for id in "$@"; do
   out=$(python3 tools/bmv.py check $id --tier quick 2>/dev/null | grep -E "VIOLATION|KNOWN-FINDING" | head -3)
   echo "$(basename $d) $id rc=$? :: ${out:-no alarm}"
 done
-git -C /repo checkout -- .
+git -C /repo reset -q --hard HEAD
